@@ -156,6 +156,7 @@ arr_real from_file(const std::string& file, dtype type, endian order, long offse
 
 real_t peakloc(const arr_real& x, int idx, bool cyclic) {
     const int n = x.size();
+    DSPLIB_ASSERT((idx >= 0) && (idx < n), "peak index out of range");
     if (!cyclic && (idx == 0 || idx == n - 1)) {
         return idx;
     }
@@ -172,6 +173,7 @@ real_t peakloc(const arr_real& x, int idx, bool cyclic) {
 
 real_t peakloc(const arr_cmplx& x, int idx, bool cyclic) {
     const int n = x.size();
+    DSPLIB_ASSERT((idx >= 0) && (idx < n), "peak index out of range");
     if (!cyclic && (idx == 0 || idx == n - 1)) {
         return idx;
     }
